@@ -20,7 +20,10 @@ EXHAUSTIVE_NOTE = ("every row of isotope_mass (2939), element_mass (84), isotope
                    "isotopes) and element_densities (119), every element 0..118 and every isotope the table holds, "
                    "in each of the configurations public, private-only (public never read), private created after "
                    "public was read, a second private table, public re-read after the private tables, and public / a fresh "
-                   "private table after a customised private table (changed _mass/_density) was read completely; the "
+                   "private table after a customised private table (changed _mass/_density) was read completely, and the reload "
+                   "configurations (a private table and, in its own process, the public table: initialised, H=1-rescaled as "
+                   "in the customizing guide with a few assigned abundances, then mass.init/density.init(reload=True): "
+                   "the re-initialised table, and the other tables while it was customised, are swept completely); the "
                    "parse_uncertainty part is a generated search, not exhaustive")
 RULE = ("sweep: one case per (configuration, clause, Z, A) where clause is one of isotope mass+uncertainty, "
         "element weight+uncertainty, abundance, abundance sum, weighted mass vs weight, element density, isotope "
@@ -57,10 +60,82 @@ ASSUMPTIONS = [
 ]
 
 CONFIGS = ("public", "private-only", "private-after-public", "private-second", "public-after-private",
-           "public-after-custom", "private-after-custom")
+           "public-after-custom", "private-after-custom")     # plus the keys of RELOAD below
+
+# Reload configurations "reload:<x>:<view>": table <x> (a private table, or the public table itself) is
+# initialised, customised the way doc/sphinx/guide/customizing.rst does (H=1 rescaling of every el._mass,
+# iso._mass, el._density; plus a few assigned abundances), and re-initialised with
+# mass.init(x, reload=True) + density.init(x, reload=True).  <view> says which table is looked at and when:
+# (stage required: 0 initialised, 1 customised, 2 reloaded; looked-at table: self / the other table)
+RELOAD = {
+    "reload:private:fresh": ("private", 0, "self"),
+    "reload:private:customised": ("private", 1, "self"),                  # kind 'custom' cases only
+    "reload:private:public-while-customised": ("private", 1, "other"),
+    "reload:private:second-private-while-customised": ("private", 1, "other2"),
+    "reload:private:reloaded": ("private", 2, "self"),
+    "reload:public:customised": ("public", 1, "self"),                    # kind 'custom' cases only
+    "reload:public:private-while-customised": ("public", 1, "other"),
+    "reload:public:reloaded": ("public", 2, "self"),
+    "reload:public:private-after-reload": ("public", 2, "other"),
+}
+CUSTOM_ABUNDANCE = {(1, 1): 50.0, (1, 2): 50.0, (43, 99): 100.0, (92, 235): 3.5, (92, 238): 96.5}
 
 _O = {}
 _ENV = {}
+_RELOAD_STATE = {}
+
+
+def reload_env(config):
+    """Bring table <x> to the stage the configuration needs (stages only move forward) and return the table to look at."""
+    import periodictable
+    from periodictable import core, mass, density
+    x, stage, view = RELOAD[config]
+    st_ = _RELOAD_STATE.get(x)
+    if st_ is None:
+        pub = periodictable.elements
+        if x == "private":
+            t = core.PeriodicTable("c06-reload")
+            mass.init(t)
+            density.init(t)
+            other = pub
+        else:
+            other = core.PeriodicTable("c06-beside-public")     # exists before the public table is customised
+            mass.init(other)
+            density.init(other)
+            t = pub
+        st_ = _RELOAD_STATE[x] = dict(stage=0, table=t, other=other, other2=None, scale=None)
+    if stage < st_["stage"]:
+        raise ValueError("configuration %s needs stage %d but table %s is already at stage %d" % (config, stage, x, st_["stage"]))
+    t = st_["table"]
+    if st_["stage"] < 1 <= stage:
+        for el in t:                                              # every value is read once before customising
+            _ = (el.mass, el.density, el.number_density, el.interatomic_distance,
+                 [(i.mass, i.abundance, i.density) for i in el])
+        scale = t[1][1].mass
+        for el in t:
+            el._mass /= scale
+            el._mass_unc /= scale
+            if getattr(el, "_density", None) is not None:
+                el._density /= scale
+            for iso in el:
+                iso._mass /= scale
+                iso._mass_unc /= scale
+        for (z, a), v in CUSTOM_ABUNDANCE.items():
+            t[z][a]._abundance = v
+        st_["scale"] = scale
+        st_["stage"] = 1
+        if x == "private":
+            t2 = core.PeriodicTable("c06-reload-second")          # initialised while the first is customised
+            mass.init(t2)
+            density.init(t2)
+            st_["other2"] = t2
+    if st_["stage"] < 2 <= stage:
+        for el in t:                                              # the customised values are served and read first
+            _ = (el.mass, el.density, el.number_density, [(i.mass, i.abundance, i.density) for i in el])
+        mass.init(t, reload=True)
+        density.init(t, reload=True)
+        st_["stage"] = 2
+    return st_["table"] if view == "self" else st_[view]
 
 
 def oracle():
@@ -113,6 +188,8 @@ def oracle():
 
 def env(config):
     """The table of a configuration (built once per process, in the order the name says)."""
+    if config in RELOAD:
+        return reload_env(config)
     if config in _ENV:
         return _ENV[config]
     import periodictable
@@ -463,9 +540,54 @@ def sweep(ctx, config):
                 run("abundance", z, a, ["abundance:listed-without-mass-row"])
 
 
+def check_custom(ctx, case):
+    """case = {kind:'custom', config, z}: a customised table serves the customised values of element z and its isotopes"""
+    O = oracle()
+    table = env(case["config"])
+    scale = _RELOAD_STATE[RELOAD[case["config"]][0]]["scale"]
+    z = case["z"]
+    el = table[z]
+    want_m = float(O["weight"][z]["mass"] if z else O["mn"]) / scale
+    rho0 = O["dens"].get(el.symbol)
+    want_rho = None if rho0 is None else float(rho0) / scale
+    if el.mass != want_m:
+        raise V("custom:element-mass", "%s._mass was set to %r, mass serves %r" % (el.symbol, want_m, el.mass), case)
+    if el.density != want_rho:
+        raise V("custom:element-density", "%s._density was set to %r, density serves %r" % (el.symbol, want_rho, el.density), case)
+    for iso in el:
+        a = iso.isotope
+        if (z, a) not in O["iso"]:
+            continue
+        wm = float(O["iso"][(z, a)]["mass"]) / scale
+        if iso.mass != wm:
+            raise V("custom:isotope-mass", "%s-%d._mass was set to %r, mass serves %r" % (el.symbol, a, wm, iso.mass), case)
+        if (z, a) in CUSTOM_ABUNDANCE and iso.abundance != CUSTOM_ABUNDANCE[(z, a)]:
+            raise V("custom:abundance", "%s-%d._abundance was set to %r, abundance serves %r"
+                    % (el.symbol, a, CUSTOM_ABUNDANCE[(z, a)], iso.abundance), case)
+        d = iso.density
+        if want_rho is None:
+            if d is not None:
+                raise V("custom:isotope-density", "%s-%d density %r with unknown element density" % (el.symbol, a, d), case)
+        elif not close(d, want_rho * wm / want_m, 1e-13):
+            raise V("custom:isotope-density", "%s-%d density %r, customised rho*m_iso/m_el = %r"
+                    % (el.symbol, a, d, want_rho * wm / want_m), case)
+
+
+def sweep_custom(ctx, config):
+    table = env(config)
+    for z in range(0, 119):
+        case = {"kind": "custom", "config": config, "z": z}
+        ctx.case((config, "custom", z), nontrivial=True, sample={"config": config, "customised-element": table[z].symbol},
+                 cls=["config:" + config, "custom:element+isotopes"])
+        ctx.check(check_custom, case)
+
+
 def task_sweep(ctx, configs):
     for c in configs:
-        sweep(ctx, c)
+        if c.endswith(":customised"):
+            sweep_custom(ctx, c)
+        else:
+            sweep(ctx, c)
 
 
 # ----------------------------------------------------------------------
@@ -552,7 +674,13 @@ def tasks(tier):
            ("sweep-private-only", task_sweep, dict(configs=["private-only"])),
            ("sweep-private-after-public", task_sweep,
             dict(configs=["public", "private-after-public", "private-second", "public-after-private"])),
-           ("sweep-after-custom", task_sweep, dict(configs=["public-after-custom", "private-after-custom"]))]
+           ("sweep-after-custom", task_sweep, dict(configs=["public-after-custom", "private-after-custom"])),
+           ("sweep-private-reload", task_sweep,
+            dict(configs=["reload:private:fresh", "reload:private:customised", "reload:private:public-while-customised",
+                          "reload:private:second-private-while-customised", "reload:private:reloaded"])),
+           ("sweep-public-reload", task_sweep,
+            dict(configs=["reload:public:customised", "reload:public:private-while-customised",
+                          "reload:public:reloaded", "reload:public:private-after-reload"]))]
     if tier == "quick":
         out += [("notation-a", task_notation, dict(n=2500)),
                 ("notation-b", task_notation, dict(n=2500))]
@@ -564,5 +692,7 @@ def tasks(tier):
 def replay(ctx, case):
     if case["kind"] == "row":
         check_row(ctx, case)
+    elif case["kind"] == "custom":
+        check_custom(ctx, case)
     else:
         check_notation(ctx, {"k": case["k"], "s": case["s"]})
